@@ -49,7 +49,7 @@ def finalize(agg, tier):
         for n in ("history_steps", "history_inplace_steps", "history_pool_checks"):
             if not c.get("%s:%s" % (n, be)):
                 out.append("deciding counter %s:%s is zero" % (n, be))
-    for name in ("prime_verdicts", "composite_verdicts", "generated_primes", "modsqrt_roots", "modsqrt_nonresidues"):
+    for name in ("prime_verdicts", "composite_verdicts", "generated_primes", "modsqrt_roots", "modsqrt_nonresidues", "sieve_verdicts"):
         if not c.get(name):
             out.append("deciding counter %s is zero" % name)
     return out
@@ -446,6 +446,29 @@ def primality(spec, ctx):
         if ctx.want_sample():
             ctx.sample({"op": "test_probable_prime", "family": fam, "n": hex(n), "factors": repr(detail)[:200]})
 
+    # ---- ground truth by sieve: EVERY n below 2^16, and between 2^16 and 2^22 every composite without a prime factor below
+    # 500 (what is left when trial division by small primes is over) plus a sample of primes
+    if idx == 0:
+        LIM = 1 << 22
+        lpf = bytearray(LIM)              # 0 = prime (or < 2); else 1 = has a factor < 500, 2 = composite with larger factors only
+        for i in range(2, 2049):
+            if lpf[i] == 0:
+                lpf[i * i::i] = bytes([1 if i < 500 else 2]) * len(range(i * i, LIM, i)) if i < 500 else \
+                    bytes(b or 2 for b in lpf[i * i::i])
+        todo = list(range(2, 1 << 16)) + [n for n in range(1 << 16, LIM) if lpf[n] == 2] + \
+            rng.sample([n for n in range((1 << 16) + 1, LIM, 2) if lpf[n] == 0], 3000)
+        bad = []
+        for n in todo:
+            v = P.test_probable_prime(n if n % 3 else Integer(n))
+            truth = P.PROBABLY_PRIME if lpf[n] == 0 else P.COMPOSITE
+            if v != truth and len(bad) < 20:
+                bad.append((n, v))
+        ctx.ev(len(todo))
+        ctx.count("sieve_verdicts", len(todo))
+        ctx.case(("sieve", "below-2^22"))
+        ctx.check(not bad, "primality:test_probable_prime:small-number-misjudged",
+                  "test_probable_prime disagrees with a sieve on a number below 2^22",
+                  lambda: {"examples (n, verdict)": bad, "n_factored": [(n, [f for f in range(2, 2100) if n % f == 0][:3]) for n, _ in bad[:5]]})
     for n in primes.SMALL_STRONG_PSEUDOPRIMES:
         judge_composite(n, "strong_psp_many_bases")
     for n in primes.strong_lucas_pseudoprimes():
